@@ -160,7 +160,8 @@ func mapBulkElementError(err error) string {
 		return common.ErrInterpreterRuntime
 	case errors.Is(err, ledgercontroller.ErrAlreadyReverted{}):
 		return common.ErrAlreadyRevert
-	case errors.Is(err, ledgercontroller.ErrInvalidIdempotencyInput{}), errors.Is(err, ledgercontroller.ErrSchemaValidationError{}):
+	case errors.Is(err, ledgercontroller.ErrInvalidIdempotencyInput{}), errors.Is(err, ledgercontroller.ErrSchemaValidationError{}),
+		errors.Is(err, ErrInvalidElement{}):
 		return common.ErrValidation
 	case errors.Is(err, ledgercontroller.ErrSchemaNotSpecified{}):
 		return common.ErrSchemaNotSpecified
